@@ -30,7 +30,7 @@ ASSUMPTIONS = ["at most one configured instance matches any generated entry (as 
                "listener policy: rejects iff (eventgroup + counter) % 4 == 3"]
 FLOORS = {"quick": {"messages": 20000, "subscribe_entries": 40000, "acks_expected": 25000, "positive_acks": 8000, "negative_acks": 10000,
                     "nack_no_running_instance": 3000, "nack_listener_rejected": 1500, "stopsubscribe_known_silent": 2000,
-                    "multicast_messages_silent": 2000, "duplicate_entry_messages": 1000, "wildcard_instance_matches": 1000}}
+                    "multicast_messages_silent": 2000, "duplicate_entry_messages": 1000, "bursts_in_one_iteration": 2000, "wildcard_instance_matches": 1000}}
 
 FOREVER = 0xFFFFFF
 SENDERS = [("10.0.11.2", 30490), ("2001:db8::b2", 30490, 0, 0)]
@@ -141,38 +141,48 @@ def run_scenario(ctx, rng, seed, replay):
     t = 0.25
     first = True
     for mi in range(rng.randrange(3, 11)):
-        sender = rng.choice(SENDERS)
-        mc = rng.random() < 0.15
-        nent = rng.choice((1, 1, 2, 3, 6))
-        entries, pats = [], []
-        dup = rng.random() < 0.12
-        for _ in range(nent):
-            e, p = gen_entry(rng, sc.insts)
-            entries.append(e)
-            pats.append(p)
-        if dup:
-            entries = (entries * 3)[:6]
-            pats = (pats * 3)[:6]
-            ctx.count("duplicate_entry_messages")
-        fl, sid = sc.sess[sender].next("m" if mc else "u")
-        data = net.sd_bytes([net.subscribe(e["sid"], e["iid"], e["maj"], e["eg"], e["ttl"], counter=e["counter"], o1=e["o1"], o2=e["o2"])
-                             for e in entries], sid, reboot=fl)
+        # one to three messages handled in the same loop iteration (two sockets readable at once, several peers)
+        batch = []
+        for _ in range(rng.choice((1, 1, 1, 2, 3))):
+            sender = rng.choice(SENDERS)
+            mc = rng.random() < 0.15
+            nent = rng.choice((1, 1, 2, 3, 6))
+            entries, pats = [], []
+            dup = rng.random() < 0.12
+            for _e in range(nent):
+                e, p = gen_entry(rng, sc.insts)
+                entries.append(e)
+                pats.append(p)
+            if dup:
+                entries = (entries * 3)[:6]
+                pats = (pats * 3)[:6]
+                ctx.count("duplicate_entry_messages")
+            fl, sid = sc.sess[sender].next("m" if mc else "u")
+            data = net.sd_bytes([net.subscribe(e["sid"], e["iid"], e["maj"], e["eg"], e["ttl"], counter=e["counter"], o1=e["o1"], o2=e["o2"])
+                                 for e in entries], sid, reboot=fl)
+            batch.append(dict(sender=sender, mc=mc, entries=entries, pats=pats, data=data))
+        if len(batch) > 1:
+            ctx.count("bursts_in_one_iteration")
         before_sent = len(sc.tr.sent)
         before_calls = len(sc.listener_calls)
         before_store = sc.store_snapshot()
-        h.at(t, sc.prot.datagram_received, data, sender, mc)
+        for b in batch:
+            h.at(t, sc.prot.datagram_received, b["data"], b["sender"], b["mc"])
         h.run(t + max(sc.ct, 0) + 2.0 ** -6)
-        ctx.count("messages")
-        ctx.count("subscribe_entries", len(entries))
+        ctx.count("messages", len(batch))
+        ctx.count("subscribe_entries", sum(len(b["entries"]) for b in batch))
         new = sc.tr.sent[before_sent:]
-        detail = dict(instances=[(i, sc.state[i]) for i in sc.insts], collection_timeout=sc.ct, multicast=mc, sender=sender,
-                      entries=[{k: v for k, v in e.items() if k not in ("o1", "o2")} | {"endpoints": len(e["o1"])} for e in entries])
+        detail = dict(instances=[(i, sc.state[i]) for i in sc.insts], collection_timeout=sc.ct,
+                      messages=[dict(multicast=b["mc"], sender=b["sender"],
+                                     entries=[{k: v for k, v in e.items() if k not in ("o1", "o2")} | {"endpoints": len(e["o1"])} for e in b["entries"]])
+                                for b in batch])
         try:
             decoded = net.decode_sent(new)
         except refwire.RefError as exc:
             ctx.violation("undecodable-transmission", dict(exc=repr(exc), **detail), replay)
             decoded = []
         acks = collections.Counter()
+        senders_uc = {b["sender"] for b in batch if not b["mc"]}
         for m in decoded:
             for e in m["entries"]:
                 if e["type"] == 1 and m["dst"] == net.MCAST:
@@ -180,62 +190,62 @@ def run_scenario(ctx, rng, seed, replay):
                 if e["type"] != 7:
                     ctx.violation("unexpected-entry-sent-after-subscribe", dict(entry=e, dst=m["dst"], **detail), replay)
                     continue
-                if m["dst"] != sender:
-                    ctx.violation("subscribe-ack-not-sent-to-the-sender-only", dict(dst=m["dst"], **detail), replay)
+                if m["dst"] not in senders_uc:
+                    ctx.violation("subscribe-ack-not-sent-to-the-sender-only" if m["dst"] not in {b["sender"] for b in batch}
+                                  else "multicast-subscribe-answered-or-changed-state", dict(dst=m["dst"], **detail), replay)
                     continue
                 if m["t"] > t + sc.ct + 4 * RES:
                     ctx.violation("subscribe-ack-later-than-collection-timeout", dict(at=m["t"], received=t, **detail), replay)
-                acks[(e["sid"], e["iid"], e["maj"], e["val"] & 0xFFFF, (e["val"] >> 16) & 0xF, e["ttl"])] += 1
-        if mc:
-            ctx.count("multicast_messages_silent")
+                acks[(m["dst"], e["sid"], e["iid"], e["maj"], e["val"] & 0xFFFF, (e["val"] >> 16) & 0xF, e["ttl"])] += 1
+        if all(b["mc"] for b in batch):
+            ctx.count("multicast_messages_silent", len(batch))
             # subscriptions recorded earlier may run out of TTL meanwhile; nothing may be added or acknowledged
             added = before_store is not None and not set(sc.store_snapshot()) <= set(before_store)
             if acks or any(c[0] == "sub" for c in sc.listener_calls[before_calls:]) or added:
                 ctx.violation("multicast-subscribe-answered-or-changed-state",
                               dict(acks=list(acks), listener_calls=sc.listener_calls[before_calls:], **detail), replay)
-        else:
-            must = collections.Counter()
-            may = collections.Counter()
-            for e in entries:
+        must = collections.Counter()
+        may = collections.Counter()
+        for b in batch:
+            if b["mc"]:
+                continue
+            for e in b["entries"]:
                 matching = [i for i in sc.insts if svc_matches(i, e)]
                 inst = matching[0] if matching else None
                 ok = inst is not None and sc.state[inst] == "running" and e["eg"] in inst[3]
                 if inst is not None and ok and (inst[1] == 0xFFFF or inst[2] == 0xFF):
                     ctx.count("wildcard_instance_matches")
+                key = (b["sender"], e["sid"], e["iid"], e["maj"], e["eg"], e["counter"])
                 if e["ttl"] == 0:
                     if ok:
                         ctx.count("stopsubscribe_known_silent")
                     else:
-                        may[(e["sid"], e["iid"], e["maj"], e["eg"], e["counter"], 0)] += 1
+                        may[key + (0,)] += 1
                     continue
                 ctx.count("acks_expected")
                 if ok and not rejected(e["eg"], e["counter"]):
-                    must[(e["sid"], e["iid"], e["maj"], e["eg"], e["counter"], e["ttl"])] += 1
+                    must[key + (e["ttl"],)] += 1
                     ctx.count("positive_acks")
                 else:
-                    must[(e["sid"], e["iid"], e["maj"], e["eg"], e["counter"], 0)] += 1
+                    must[key + (0,)] += 1
                     ctx.count("negative_acks")
                     ctx.count("nack_listener_rejected" if ok else "nack_no_running_instance")
-            missing = must - acks
-            surplus = acks - must - may
-            if missing or surplus:
-                mech = "subscribe-ack-multiset-differs-from-model"
-                if missing and not surplus:
-                    mech = "subscribe-not-acknowledged-exactly-once"
-                    # a wrong TTL / ids shows up as one missing + one surplus; this branch is a plain loss
-                elif surplus and not missing:
-                    mech = "surplus-subscribe-ack"
-                else:
-                    mk = {k[:5] for k in missing}
-                    sk = {k[:5] for k in surplus}
-                    if mk & sk:
-                        mech = "subscribe-ack-ttl-differs-from-model"
-                    else:
-                        mech = "subscribe-ack-ids-or-counter-not-echoed"
-                ctx.violation(mech, dict(missing=list(missing.elements())[:4], surplus=list(surplus.elements())[:4], **detail), replay)
-        key = (tuple(sorted((i[0], sc.state[i]) for i in sc.insts)), mc, tuple(pats), sc.ct > 0)
-        ctx.case(key, (not mc) and any(e["ttl"] for e in entries), sample=detail if first and not mc else None)
-        if not mc:
+        missing = must - acks
+        surplus = acks - must - may
+        if missing or surplus:
+            if missing and not surplus:
+                mech = "subscribe-not-acknowledged-exactly-once"
+            elif surplus and not missing:
+                mech = "surplus-subscribe-ack"
+            else:
+                mk = {k[:6] for k in missing}
+                sk = {k[:6] for k in surplus}
+                mech = "subscribe-ack-ttl-differs-from-model" if mk & sk else "subscribe-ack-ids-or-counter-not-echoed"
+            ctx.violation(mech, dict(missing=list(missing.elements())[:4], surplus=list(surplus.elements())[:4], **detail), replay)
+        key = (tuple(sorted((i[0], sc.state[i]) for i in sc.insts)), tuple((b["mc"], tuple(b["pats"])) for b in batch), sc.ct > 0)
+        nt = any((not b["mc"]) and any(e["ttl"] for e in b["entries"]) for b in batch)
+        ctx.case(key, nt, sample=detail if first and nt else None)
+        if nt:
             first = False
         t += rng.choice((2.0 ** -5, 0.25, 1.5, 3.5))
     problems = h.problems()
